@@ -100,7 +100,7 @@ var dataCalls = map[string]bool{
 	"sendmsg": true, "recvmsg": true, "getrandom": true,
 }
 
-var reAnnot =regexp.MustCompile(`^(-?\d+|AT_FDCWD)<(.*)>$`)
+var reAnnot = regexp.MustCompile(`^(-?\d+|AT_FDCWD)<(.*)>$`)
 
 // argPaths extracts the absolute paths an argument names.
 func argPaths(a string) (ps []string) {
